@@ -385,6 +385,7 @@ func genSignedStructs(g *G, count int) {
 			b, tag := g.maybeMutate(c.bytes, 0.15)
 			g.gen += tag
 			g.emit("readLS2", hx(b))
+			g.emitExact("readLS2", c.tag, tag, b, forced || forgedOther || (i >= 8 && i < 12))
 		}
 		// MetaLeaseSet
 		id = g.pickIdentity(false)
@@ -426,6 +427,7 @@ func genSignedStructs(g *G, count int) {
 			b, tag := g.maybeMutate(c.bytes, 0.15)
 			g.gen += tag
 			g.emit("readMeta", hx(b))
+			g.emitExact("readMeta", c.tag, tag, b, forced || forgedOther)
 		}
 		// EncryptedLeaseSet (blinded key = a key the harness owns)
 		bl := g.newSigner(r.pick(7, 11, 11, 1))
@@ -466,6 +468,7 @@ func genSignedStructs(g *G, count int) {
 			b, tag := g.maybeMutate(c.bytes, 0.15)
 			g.gen += tag
 			g.emit("readELS", hx(b))
+			g.emitExact("readELS", c.tag, tag, b, forced || forgedOther)
 		}
 		// LeaseSet (type 1): destination, ElGamal key, revocation key, leases, signature by the destination key
 		id = g.pickIdentity(false)
@@ -506,6 +509,7 @@ func genSignedStructs(g *G, count int) {
 			b, tag := g.maybeMutate(c.bytes, 0.15)
 			g.gen += tag
 			g.emit("readLS", hx(b))
+			g.emitExact("readLS", c.tag, tag, b, nullRound)
 		}
 		// RouterInfo (only Ed25519 identities can verify)
 		rid := g.pickIdentity(true)
@@ -580,6 +584,15 @@ func (g *G) emitCuts(op string, b []byte, tag string) {
 	}
 	for k := 100; k < 116; k++ {
 		add(k)
+	}
+}
+
+// emitExact: for an encoding the generator built as exactly one well-formed structure (a forced round whose every
+// dimension is fixed to a permitted value, correctly signed, not mutated), the reader must accept it and leave no remainder — "consumes exactly the structure's own
+// declared extent" with the extent known from the construction.
+func (g *G) emitExact(op, caseTag, mutTag string, b []byte, builtValid bool) {
+	if builtValid && caseTag == "signed" && mutTag == "" {
+		g.emit("!exact", op, hx(b))
 	}
 }
 
